@@ -153,6 +153,9 @@ def check_map(case, part):
     s["e"] = np.arange(n) / 10.0
     s["ln_prior"] = np.array(lp, dtype=float)
     s["ln_likelihood"] = np.array(ll, dtype=float)
+    if case.get("stale_post"):
+        # a stored ln_posterior column that no longer agrees with the two columns the definition names
+        s["ln_posterior"] = -np.arange(n, dtype=float)[::-1] * 3.0
     tot = np.array(lp, dtype=float) + np.array(ll, dtype=float)
     if not np.any(np.isfinite(tot)):
         return  # no finite posterior value anywhere: nothing is defined
@@ -220,6 +223,8 @@ def build_cases(quick, seed):
     for n in range(1, (4 if quick else 5)):
         for rows in itertools.product(pairs, repeat=n):
             maps.append(dict(kind="map", ln_prior=[r[0] for r in rows], ln_like=[r[1] for r in rows]))
+            if n == 3 and len(maps) % 5 == 0:
+                maps.append(dict(kind="map", ln_prior=[r[0] for r in rows], ln_like=[r[1] for r in rows], stale_post=True))
     return cases, maps
 
 
